@@ -113,6 +113,35 @@ def cmp_dispatch(sess, R, M, params=False, chains=False, setup=False, urls=False
     return bad
 
 
+def cmp_params(sess, R, M):
+    """C02: the model comparison, plus — only in sessions the model cannot judge, because a registration was answered
+    differently (the code accepted a route the model refuses) — the property's own round-trip clause on the REAL
+    outputs alone: substituting the values the handler received back into the route it was dispatched to (`u0` without,
+    `u1` with the optional segment) reproduces the request path. Paths with percent-escapes (the clause holds "up to
+    the single decoding") and routes that could not be named are left out. On the unchanged tree no registration is
+    answered differently, so this monitor never runs there."""
+    bad = cmp_dispatch(sess, R, M, params=True)
+    if bad or _is_app(sess) or not _setup_diverged(sess, R, M):
+        return bad
+    for i, op in enumerate(sess):
+        if not op.startswith("REQ ") or i >= len(R):
+            continue
+        r = parse_out(R[i])
+        if r.get("kind") != "h" or r.get("u0") in (None, NA):
+            continue
+        f = op.split()
+        try:
+            path = bytes.fromhex(f[2]) if f[2] != "-" else b""
+        except ValueError:
+            continue
+        if b"%" in path or b"{" in path:
+            continue
+        want = (b"/" + path.lstrip(b"/")).hex()
+        if want not in (r.get("u0"), r.get("u1")):
+            bad.append(i)
+    return bad
+
+
 def cmp_shortcut(sess, R, M):
     """C10: the model comparison, plus a monitor on the REAL code alone — a request served by Flame.ServeHTTP (fast
     path first) and the same request matched on the identically populated shadow tree (`TREQ` right after its `REQ`)
